@@ -55,6 +55,17 @@ DEEP_MAIN = (f'<xs:schema xmlns:xs="http://www.w3.org/2001/XMLSchema" targetName
              '</xs:sequence></xs:complexType></xs:element></xs:schema>')
 
 
+# THREE (and four) namespaces with the same class name whose module paths differ unevenly (a.org/x, a.org/y, b.org/y,
+# b.org/x/deep), all used by one class: the aliases depend on how the imports are lined up against each other
+TRI = {"x1.xsd": "http://a.org/x", "y1.xsd": "http://a.org/y", "y2.xsd": "http://b.org/y", "z.xsd": "http://b.org/x/deep"}
+TRI_MAIN = ('<xs:schema xmlns:xs="http://www.w3.org/2001/XMLSchema" targetNamespace="urn:main" '
+            + " ".join(f'xmlns:n{i}="{ns}"' for i, ns in enumerate(TRI.values())) + ' elementFormDefault="qualified">'
+            + "".join(f'<xs:import namespace="{ns}" schemaLocation="{f}"/>' for f, ns in TRI.items())
+            + '<xs:element name="root"><xs:complexType><xs:sequence>'
+            + "".join(f'<xs:element name="e{i}" type="n{i}:Item"/>' for i in range(len(TRI)))
+            + '</xs:sequence></xs:complexType></xs:element></xs:schema>')
+
+
 # wildcards whose namespace attribute LISTS several tokens (field names and metadata are derived from the list)
 WILD_LISTS = ('<xs:schema xmlns:xs="http://www.w3.org/2001/XMLSchema" targetNamespace="urn:w" xmlns:t="urn:w" elementFormDefault="qualified">'
               '<xs:complexType name="Open"><xs:sequence><xs:element name="head" type="xs:string"/>'
@@ -89,6 +100,7 @@ def source_sets():
     sets.append(("cyclic-two-namespaces", {"a.xsd": CYCLIC_A, "b.xsd": CYCLIC_B}, ["a.xsd", "b.xsd"]))
     sets.append(("wildcard-lists", {"w.xsd": WILD_LISTS}, ["w.xsd"]))
     sets.append(("deep-ns-clash", {"main.xsd": DEEP_MAIN, "north.xsd": _ns_schema(DEEP_A), "south.xsd": _ns_schema(DEEP_B, '<xs:element name="n" type="xs:int"/>')}, ["main.xsd"]))
+    sets.append(("four-ns-clash", {"main.xsd": TRI_MAIN, **{f: _ns_schema(ns, f'<xs:element name="k{i}" type="xs:int"/>') for i, (f, ns) in enumerate(TRI.items())}}, ["main.xsd"]))
     for name in ("series",):
         d = FIX / name
         js = sorted(p for p in d.glob("*.json"))[:2]
